@@ -4,12 +4,7 @@ import (
 	"bytes"
 	"encoding/xml"
 	"fmt"
-	"go/ast"
-	"go/parser"
-	"go/token"
-	"os"
 	"path/filepath"
-	"sort"
 	"regexp"
 	"strconv"
 	"strings"
@@ -232,54 +227,6 @@ func sendHistoryProbe() string {
 	return fmt.Sprintf("/-- (history, websocket, receiving) ↦ does a real session write the same bytes as without the history -/\ndef sendHistoryProbe : Option (List (String × Bool × Bool × String)) := some [\n  %s]\n\n", strings.Join(rows, ",\n  "))
 }
 
-// mutablePackageVars lists the package-level variables of the non-test files of a directory that
-// can carry state from one call to the next: everything except the blank identifier and error
-// sentinels (initialised by errors.New / fmt.Errorf).
-func mutablePackageVars(dir string) ([]string, error) {
-	ents, err := os.ReadDir(dir)
-	if err != nil {
-		return nil, err
-	}
-	fset := token.NewFileSet()
-	out := []string{}
-	for _, e := range ents {
-		n := e.Name()
-		if e.IsDir() || !strings.HasSuffix(n, ".go") || strings.HasSuffix(n, "_test.go") {
-			continue
-		}
-		f, err := parser.ParseFile(fset, filepath.Join(dir, n), nil, 0)
-		if err != nil {
-			return nil, err
-		}
-		for _, d := range f.Decls {
-			gd, ok := d.(*ast.GenDecl)
-			if !ok || gd.Tok != token.VAR {
-				continue
-			}
-			for _, sp := range gd.Specs {
-				vs := sp.(*ast.ValueSpec)
-				for i, id := range vs.Names {
-					if id.Name == "_" {
-						continue
-					}
-					if i < len(vs.Values) {
-						if c, ok := vs.Values[i].(*ast.CallExpr); ok {
-							if se, ok := c.Fun.(*ast.SelectorExpr); ok {
-								if x, ok := se.X.(*ast.Ident); ok && ((x.Name == "errors" && se.Sel.Name == "New") || (x.Name == "fmt" && se.Sel.Name == "Errorf")) {
-									continue
-								}
-							}
-						}
-					}
-					out = append(out, leanStr(id.Name))
-				}
-			}
-		}
-	}
-	sort.Strings(out)
-	return out, nil
-}
-
 // Facts regenerates lean/XmppModel/Generated/C12.lean:
 //
 //   - sendRawAttrs: the attributes internal/stream.Send prints with a bare %s inside quotes
@@ -390,15 +337,9 @@ func Facts(repo string) (string, error) {
 		}
 		fmt.Fprintf(&sb, "def bindCapturedCallResults : Option (List String) := some [%s]\n\n", strings.Join(l, ", "))
 	}
-	// ---- 5. round D: the address comparison on all pairs, the header after every history, package state ----
+	// ---- 5. round D: the address comparison on all pairs, the header after every history ----
 	sb.WriteString(jidEqualProbe())
 	sb.WriteString(sendHistoryProbe())
-	sb.WriteString("/-- package-level variables of internal/stream that can carry state from one `Send` / `Expect` to the next -/\n")
-	if vars, err := mutablePackageVars(filepath.Join(repo, "internal", "stream")); err != nil {
-		sb.WriteString("def streamPackageState : Option (List String) := none\n\n")
-	} else {
-		fmt.Fprintf(&sb, "def streamPackageState : Option (List String) := some [%s]\n\n", strings.Join(vars, ", "))
-	}
 	sb.WriteString("end XmppModel.Generated.C12\n")
 	return sb.String(), nil
 }
